@@ -416,7 +416,9 @@ fn controller(prog: Arc<Program>) {
     for out in 0..n_outs {
         drop_out(out);
     }
-    for o in 0..prog.n_objs {
+    // higher-numbered objects first: operations only ever wait for objects with a higher number, so with no pool
+    // thread the object whose queue somebody is waiting for gets drained (by its own drop) before the waiter's
+    for o in (0..prog.n_objs).rev() {
         drop_table_ref(o);
     }
     kernel::await_quiescence();
